@@ -51,6 +51,8 @@ def generate(rng, tier):
     yield from _small(2, 2, 2, 1600)
     yield from jc.scripted_warm("left", kinds=("left",), expects=["many_to_many", "one_to_one"])
     yield from jc.scripted_warm("full", kinds=("full",), expects=["many_to_many", "many_to_one"])
+    yield from jc.self_joins("left", kinds=("left",), expects=["many_to_many"])
+    yield from jc.self_joins("full", kinds=("full",), expects=["many_to_many"])
     yield from jc.malformed_stream(rng, ["left", "full"], 240 if not thorough else 2400, "outer.malformed")
     if not thorough:
         yield from _random(rng, 30000)
